@@ -68,11 +68,19 @@ type ParsedLine struct {
 	line               string
 	includeFileName    string
 	excludeFileNames   []string
-	suffixReplacements map[string]string
+	suffixReplacements []suffixReplacement
 	definitions        map[string]string
 	prefix             string
 	suffix             string
 	flags              string
+}
+
+// suffixReplacement is a single `match replacement` pair of an include directive.
+// Pairs are kept in the order in which they were written, so that they are
+// always applied in the same order.
+type suffixReplacement struct {
+	match       string
+	replacement string
 }
 
 // NewParser creates a new parser from an io.Reader.
@@ -230,7 +238,7 @@ func (p *Parser) parseLine(line string) ParsedLine {
 	return pl
 }
 
-func buildPairMap(input string) map[string]string {
+func buildPairMap(input string) []suffixReplacement {
 	if len(strings.TrimSpace(input)) == 0 {
 		return nil
 	}
@@ -241,13 +249,13 @@ func buildPairMap(input string) map[string]string {
 		logger.Panic().Msgf("uneven number of arguments found: %s", input)
 	}
 
-	pairMap := map[string]string{}
+	pairs := make([]suffixReplacement, 0, len(list)/2)
 	for i := 0; i < len(list); i += 2 {
-		pairMap[list[i]] = list[i+1]
+		pairs = append(pairs, suffixReplacement{match: list[i], replacement: list[i+1]})
 	}
 
-	logger.Trace().Msgf("Built pair map: %v", pairMap)
-	return pairMap
+	logger.Trace().Msgf("Built pair map: %v", pairs)
+	return pairs
 }
 
 func splitArgs(input string) []string {
